@@ -786,6 +786,7 @@ func main() {
 		e.servicePhase(rng)
 		e.servicePopulatedPhase(rng)
 		e.serviceOddIDsPhase()
+		e.serviceLegacyCollectorPhase()
 		e.serviceGatedPhase()
 		r.Count("backends", 1)
 	}
